@@ -116,12 +116,15 @@ func calls() []call {
 		// the pieces returned by Split are capacity-limited views (p.d[i:j:j]): appending to a piece must
 		// reallocate and never write into the receiver (anchor "capacity-limited subpath slices")
 		{"SplitThenAppend", false, func(x *callCtx) {
+			// only calls that APPEND a record: the pieces are views, so the builder's in-place branches
+			// (collinear LineTo merge, Close rewriting the last LineTo, MoveTo overwrite) write through by design
 			for _, piece := range x.p.Split() {
-				piece.LineTo(x.pt.X+123.25, x.pt.Y-77.5)
-				piece.QuadTo(1, 2, x.pt.X, x.pt.Y)
-				piece.Close()
+				e := piece.Pos()
+				piece.CubeTo(e.X+123.25, e.Y-77.5, e.X-61.5, e.Y-19.125, e.X+7.75, e.Y+33.5)
+				piece.ArcTo(3, 2, 30, false, true, e.X-11.5, e.Y+2.25)
 			}
 		}},
+
 		{"SplitAt", false, func(x *callCtx) { keep(x, x.p.SplitAt(x.ts...)...) }},
 		{"Dash", false, func(x *callCtx) { keep(x, x.p.Dash(x.t, x.dash...)) }},
 		{"Reverse", false, func(x *callCtx) { keep(x, x.p.Reverse()) }},
@@ -290,7 +293,7 @@ func total(c *hc.Ctx, pool []*canvas.Path) {
 			}
 			// aliasing: a result that shares memory with the receiver is not a new path
 			for _, o := range y.out {
-				if o != nil && len(derived) < budget && c.Chance(0.15) && len(o.Data()) > 0 && len(o.Data()) < 400 && quietWF(o) {
+				if o != nil && len(derived) < budget && c.Chance(0.15) && len(o.Data()) > 0 && len(o.Data()) < 400 && quietWF(o) && moderate(o) {
 					derived = append(derived, o.Copy())
 				}
 			}
@@ -523,4 +526,16 @@ func gridCheck(c *hc.Ctx, p *canvas.Path, w, h float64, nx, ny int, r float64, d
 			return
 		}
 	}
+}
+
+// moderate: no value beyond 1e9 in magnitude. Stroke/Offset occasionally return arcs with radii around
+// 1e15 (recorded under C04); feeding those back makes Flatten/Dash emit ~1e12 segments, which is slow by
+// design and not a totality defect of the method under test.
+func moderate(p *canvas.Path) bool {
+	for _, v := range p.Data() {
+		if math.Abs(v) > 1e9 {
+			return false
+		}
+	}
+	return true
 }
